@@ -49,7 +49,8 @@ def walk_tree(case):
             if rec["name"] == case["blank_codes"]:
                 blank += [("LED", rec["name"], nth, path) for path, off, leaf, arr in L.leaves(rec) if leaf["r"] == "code" and leaf["k"] in ("ai", "s")]
     b = product.build_product(level=case["level"], images=case["images"], seed=case["seed"], plan=plan, ctx=case.get("ctx"),
-                              blank=blank, summary_extra=case.get("summary_extra"), vary_first=case.get("vary_first", False))
+                              blank=blank, summary_extra=case.get("summary_extra"), vary_first=case.get("vary_first", False),
+                              shape_pairs=("all", "fewer", "none", "more", "all")[(case["seed"] + (case.get("k") or 0)) % 5])
     url = imgrun.put_on_fs(b, case["fs"], f"c12_{case['seed']}_{case.get('k')}")
     res = {"case": case, "bad": [], "n_vars": 0, "n_attrs": 0}
     try:
